@@ -337,7 +337,8 @@ class Q:
             # a derived table / CTE that keeps only the first rows under a total order (guards against pushing predicates below LIMIT)
             self.f.add("nested-limit")
             self.f.add("limit")
-            sql += " ORDER BY " + ", ".join(f"o{i}" for i in range(len(outs))) + f" LIMIT {self.i(1, 3)}"
+            nulls = self.pick((" NULLS FIRST", " NULLS LAST")) if self.p.get("explicit_nulls") else ""  # default NULL order is engine-specific
+            sql += " ORDER BY " + ", ".join(f"o{i}{nulls}" for i in range(len(outs))) + f" LIMIT {self.i(1, 3)}"
         return sql, cols, False
 
     def order_limit(self, ncols, allow_limit=True):
